@@ -4,7 +4,8 @@ known_findings.json with the first line of its description. Usage: add_kf.py C13
 import json, subprocess, sys, re
 pid=sys.argv[1]; filt=sys.argv[2] if len(sys.argv)>2 else ""
 note=sys.argv[3] if len(sys.argv)>3 else ""
-out=subprocess.run(["./check",pid,"--tier","quick","--no-build"],capture_output=True,text=True,cwd="/verif").stdout
+import os
+out=open(os.environ["KF_LOG"]).read() if os.environ.get("KF_LOG") else subprocess.run(["./check",pid,"--tier","quick","--no-build"],capture_output=True,text=True,cwd="/verif").stdout
 d=json.load(open("/verif/known_findings.json"))
 have={(f["property"],f["key"]) for f in d["findings"]}
 n=0
